@@ -167,6 +167,14 @@ class SimSocket(object):
     def recv(self, n):
         """Blocking read (only used by the proxy phase)."""
         w = self.w
+        if self.st.leftover:
+            d, self.st.leftover = self.st.leftover[:n], self.st.leftover[n:]
+            w.pconsumed += len(d)
+            w.rec({"k": "rd", "sock": self.st.id, "what": "data", "n": len(d), "pdone": w.pconsumed >= w.plen > 0})
+            return d
+        if w.conn.get('proxy_reply') is not None and 'proxy_reads' not in w.conn:
+            from . import concretise
+            w.conn['proxy_reads'], w.plen = concretise.proxy_reads(w.conn['proxy_reply'])
         r = w.conn_take('proxy_reads', 'eof')
         if r == 'eof':
             w.rec({"k": "rd", "sock": self.st.id, "what": "eof", "n": 0})
@@ -178,8 +186,10 @@ class SimSocket(object):
             w.rec({"k": "rd", "sock": self.st.id, "what": "boom", "n": 0})
             raise Boom('recv')
         d = w.proxy_bytes(r)
-        w.rec({"k": "rd", "sock": self.st.id, "what": "data", "n": len(d)})
-        return d[:n]
+        d, self.st.leftover = d[:n], d[n:]
+        w.pconsumed += len(d)
+        w.rec({"k": "rd", "sock": self.st.id, "what": "data", "n": len(d), "pdone": w.pconsumed >= w.plen > 0})
+        return d
 
     def shutdown(self, how):
         self.st.shutdown = True
@@ -357,6 +367,8 @@ class World(object):
         self.item_ends = None
         self.on_frame_written = None
         self.last_app_payload = None
+        self.pconsumed = 0
+        self.plen = 0
         self.watch_steps = 0
 
     # -- recording and time
@@ -404,6 +416,8 @@ class World(object):
         self.stream_bytes = None
         self.item_ends = None
         self.http_len = 0
+        self.pconsumed = 0
+        self.plen = 0
         self.rec({"k": "conn", "i": self.ci})
 
     def end_connection(self):
